@@ -57,7 +57,7 @@ def one_run(pid, d, tag, seed, tier, phases, skip, tr, budget, stats, race=False
     for ph in phases:
         if ph not in status:
             continue
-        if focus and not (out / ph / "history.txt").exists():
+        if focus and not (out / ph / "history.txt").exists() and not (out / ph / "result.txt").exists():
             continue
         if status[ph] != "OK":
             v = conclib.hang_report(ph, out / ph)
@@ -67,6 +67,9 @@ def one_run(pid, d, tag, seed, tier, phases, skip, tr, budget, stats, race=False
                 v["kind"] = "server-crash"
                 v["note"] = "an executor panicked while holding a lock; everything touching that stripe then blocks for ever"
             viol.append(v)
+            continue
+        if ph == "keyscan":
+            viol += conclib.check_keyscan(out / ph, stats)
             continue
         if ph == "bigval":
             viol += conclib.check_bigval(out / ph, stats)
@@ -163,7 +166,7 @@ def run(ctx, pid, phases, title, extra_tb, rule):
                 import time as _t
                 t0 = _t.time()
                 i = 0
-                allph = ["counter", "list", "setnx", "multi", "setalg", "conserve", "book", "misc", "expiry", "pairs", "bigval"]
+                allph = ["counter", "list", "setnx", "multi", "setalg", "conserve", "book", "misc", "expiry", "pairs", "bigval", "keyscan"]
                 while not viol and _t.time() - t0 < (300 if thorough else 45):
                     i += 1
                     viol += one_run(pid, d, "focus%d" % i, ctx.seed + 31 * i, "quick", allph, skip, tr,
